@@ -23,10 +23,40 @@ def _from_vec_macro(span):
     return isinstance(span, dict) and str(span.get('exp', '')).startswith('macro:vec')
 
 
+_PRIM_DEFAULT = {'u8': 'int', 'u16': 'int', 'u32': 'int', 'u64': 'int', 'u128': 'int', 'usize': 'int', 'i8': 'int', 'i16': 'int',
+                 'i32': 'int', 'i64': 'int', 'i128': 'int', 'isize': 'int', 'f64': 'f64', 'f32': 'f32', 'bool': 'bool'}
+
+
+def _prim_defaults(raw):
+    """`<u32 as Default>::default()` and friends are the constant zero / false: the call becomes an assignment."""
+    n = 0
+    for bb in raw['blocks']:
+        t = bb['term']
+        if t['t'] != 'call' or t.get('args') or t.get('target') is None:
+            continue
+        fc = t['func']
+        if not (fc.get('fn') or '').endswith('Default::default') or not (fc.get('trait') or '').endswith('Default'):
+            continue
+        kind = _PRIM_DEFAULT.get((t.get('dest') or {}).get('ty'))
+        if kind is None or t['dest']['p']:
+            continue
+        ty = t['dest']['ty']
+        if kind == 'int':
+            c = {'k': 'const', 'ty': ty, 'int': '0', 'syn': 'default'}
+        elif kind == 'bool':
+            c = {'k': 'const', 'ty': ty, 'bool': False, 'syn': 'default'}
+        else:
+            c = {'k': 'const', 'ty': ty, 'bits': '0', 'f': '0.0', 'fw': 64 if kind == 'f64' else 32, 'syn': 'default'}
+        bb['stmts'].append({'s': 'assign', 'place': t['dest'], 'rv': {'r': 'use', 'a': c}, 'span': t.get('span'), 'syn': True})
+        bb['term'] = {'t': 'goto', 'target': t['target'], 'span': t.get('span'), 'syn': True}
+        n += 1
+    return n
+
+
 def rewrite(raw):
     """Rewrite every array-literal `vec!` expansion in this raw body (in place).  Returns the number rewritten."""
     blocks = raw['blocks']
-    n = 0
+    n = _prim_defaults(raw)
     for bi, bb in enumerate(blocks):
         t = bb['term']
         if t['t'] != 'call' or not (t['func'].get('fn') or '').endswith('box_assume_init_into_vec_unsafe') or bb.get('cleanup'):
